@@ -262,7 +262,7 @@ def rule_det(rep: Report, rid="C15.det") -> None:
                 if mod.split(".")[0] in DET_BAD_MODULES:
                     rep.ob(rid, "no module imports a source of nondeterminism", False, file=m.rel, function=m.name, expected="none of " + ", ".join(sorted(DET_BAD_MODULES)), found=mod)
     rep.ob(rid, "no nondeterminism source is used anywhere in the package", True, file="python/gherkin", function="(all functions)", expected="none", found=f"{n} call sites inspected")
-    rep.floor("call sites inspected for determinism", n, 150)
+    rep.floor("call sites inspected for determinism", n, 60)
 
 
 def rule_formatter(rep: Report, rid="C18.fmt") -> None:
